@@ -243,6 +243,7 @@ pub struct ConnCfg {
     pub chunks: Vec<Vec<u8>>,
     pub fail_write_at: Option<usize>,
     pub write_pending_polls: usize,
+    pub read_err_kind: u8,
 }
 
 #[derive(Debug, Clone, Default)]
@@ -444,6 +445,7 @@ pub fn run_world(cfg: &WorldCfg) -> WorldOut {
                 let mut wb = w.borrow_mut();
                 wb.fail_write_at = cfg.conns[i].fail_write_at;
                 wb.write_pending_polls = cfg.conns[i].write_pending_polls;
+                wb.err_kind = cfg.conns[i].read_err_kind;
             }
             w
         })
@@ -724,6 +726,8 @@ pub struct ConnScn {
     pub fail_write_at: Option<usize>,
     pub write_pending_polls: usize,
     pub faulty: bool,
+    /// which error kind an injected read error produces (see `vnet::Wire::err_kind`)
+    pub read_err_kind: u8,
 }
 
 impl ConnScn {
@@ -758,7 +762,7 @@ impl Scenario {
                 .conns
                 .iter()
                 .enumerate()
-                .map(|(i, c)| ConnCfg { chunks: c.chunks(i as u32), fail_write_at: c.fail_write_at, write_pending_polls: c.write_pending_polls })
+                .map(|(i, c)| ConnCfg { chunks: c.chunks(i as u32), fail_write_at: c.fail_write_at, write_pending_polls: c.write_pending_polls, read_err_kind: c.read_err_kind })
                 .collect(),
             steps: self.steps.clone(),
         }
@@ -771,7 +775,7 @@ impl Scenario {
                 "calls": c.calls.iter().map(|k| json!([match k.kind { Kind::Echo => "echo", Kind::Fail => "fail", Kind::Sub => "sub" }, k.seq, k.oneway, k.more, k.payload])).collect::<Vec<_>>(),
                 "raw": c.raw.as_ref().map(|r| hexs(r)),
                 "raw_text": c.raw.as_ref().map(|r| vnet::json::show(r)),
-                "cuts": c.cuts, "fail_write_at": c.fail_write_at, "wpp": c.write_pending_polls, "faulty": c.faulty,
+                "cuts": c.cuts, "fail_write_at": c.fail_write_at, "wpp": c.write_pending_polls, "faulty": c.faulty, "rek": c.read_err_kind,
             })).collect::<Vec<_>>(),
             "steps": steps_json(&self.steps),
         })
@@ -792,6 +796,7 @@ impl Scenario {
                 fail_write_at: c["fail_write_at"].as_u64().map(|x| x as usize),
                 write_pending_polls: c["wpp"].as_u64().unwrap_or(0) as usize,
                 faulty: c["faulty"].as_bool().unwrap_or(false),
+                read_err_kind: c["rek"].as_u64().unwrap_or(0) as u8,
             }).collect(),
             steps: steps_from_json(&v["steps"]),
         }
@@ -805,7 +810,7 @@ impl Scenario {
                 h = vnet::fnv_mix(h, *x as u64);
             }
             h = vnet::fnv_mix(h, c.fail_write_at.map_or(u64::MAX, |x| x as u64));
-            h = vnet::fnv_mix(h, c.write_pending_polls as u64);
+            h = vnet::fnv_mix(h, c.write_pending_polls as u64 + ((c.read_err_kind as u64) << 8));
         }
         vnet::fnv_mix(h, vnet::fnv(format!("{:?}", self.steps).as_bytes()))
     }
